@@ -195,6 +195,9 @@ func genHelpNode(r *rand.Rand, name string, depth int, parent *hNode, version bo
 	}
 	if r.Intn(2) == 0 {
 		n.longDesc = "LONG description\nof " + name + []string{"", " (100% %v)"}[r.Intn(2)]
+		if r.Intn(6) == 0 {
+			n.longDesc = "L" // a long description may be short
+		}
 	}
 	names := []string{"a", "b", "c", "d", "e", "long1", "long2", "l3", "x-y", "f", "Z", "zz", "g", "i", "j", "k", "l", "m", "n", "o", "p", "q", "r", "long-name-4", "ln5", "s", "t", "u", "another_long-one", "w", "y"}
 	r.Shuffle(len(names), func(i, j int) { names[i], names[j] = names[j], names[i] })
